@@ -197,7 +197,7 @@ def gen_run_case(rng, tier):
             continue
         solver = rng.choice(["euler", "euler", "heun"])
         steps = rng.choice([4, 6, 8]) if linear else rng.choice([2, 3])
-        mult = rng.choice([1, 1, 2]) if steps % 2 == 0 and steps >= 4 else 1     # a single stored row is C03's known finding (DataFrame shape)
+        mult = rng.choice([1, 1, 2]) if steps % 2 == 0 else 1     # (two steps sampled every second step: a single stored row)
         pre = None
         if rng.random() < 0.25:
             pre = {p: C.q2s(F(rng.randint(-4, 4), rng.choice([1, 2]))) for p in sp}
